@@ -38,6 +38,15 @@ def _solve_nontrivial(sx, v, meta):
     # non-trivial: not decided by the empty problem, i.e. the case has at least 2 constraints
     return sx.count('(0 1 ') + sx.count('(1 ') + sx.count('(2 ') >= 2
 
+def _c12_stats(lines, verdicts):
+    k = {'1': 'identical_to_model_export', '0': 'decided_by_enumeration', '2': 'undecided_drift'}
+    out = {}
+    for v in verdicts:
+        if v[0] == 'ok' and len(v[2]) > 3:
+            out[k.get(v[2][3], '?')] = out.get(k.get(v[2][3], '?'), 0) + 1
+    return out
+
+
 def _verdict_stats(lines, verdicts):
     sat = sum(1 for v in verdicts if v[0] == 'ok' and v[2][:1] == ['1'])
     unsat = sum(1 for v in verdicts if v[0] == 'ok' and v[2][:1] == ['2'])
@@ -150,7 +159,10 @@ PROPS = {
              'with it on the named variables" (verified reference search); non-trivial = formula with at least one model and an '
              'export of at least 2 variables',
         nontrivial=lambda sx, v, meta: v[0] == 'ok' and len(v[2]) > 2 and int(v[2][0]) > 0 and int(v[2][1]) >= 2,
-        assumptions=[],
+        stats=_c12_stats,
+        assumptions=['when the exported problem is identical (numbering, clause and literal order) to the export of the mirrored '
+                     'translation coq/Model/Bf.v the model equivalence is theorem C12_models; otherwise it is decided by enumeration '
+                     'with unit-propagation pruning up to 26 exported variables and reported as undecided drift beyond'],
     ),
     'C06': dict(
         judge='C06', judge_module='Judge.J06', judge_fn='judge_C06',
